@@ -519,10 +519,15 @@ impl HybSim {
             for _ in 0..200_000 {
                 tokio::task::yield_now().await;
                 let p = self.disk.progress();
-                let runnable = metrics.worker_local_queue_depth(0) + metrics.global_queue_depth();
+                // (builds without --cfg tokio_unstable - the cargo-fuzz targets, which never run hybsim - only see the
+                // injection queue and fall back to a long run of quiet yields)
+                #[cfg(tokio_unstable)]
+                let (runnable, need) = (metrics.worker_local_queue_depth(0) + metrics.global_queue_depth(), 4);
+                #[cfg(not(tokio_unstable))]
+                let (runnable, need) = (metrics.global_queue_depth(), 64);
                 if p == last && runnable == 0 {
                     quiet += 1;
-                    if quiet >= 4 {
+                    if quiet >= need {
                         break;
                     }
                 } else {
